@@ -221,10 +221,17 @@ func SolveAll(g *Gen, header string, results []*FnResult, outDir string, par int
 // the load of the machine, and a timeout must not be reported as a failed obligation just because sixteen
 // solver processes (or other jobs) were competing for the cores. At most 40 of them are re-run, four at a time,
 // with three times the timeout and all solvers raced. A genuine failure stays a failure; it only takes longer.
+// NoRetry (set by the property check): obligations that are recorded known findings are expected to fail; their
+// timeout is not worth a second, three times longer, attempt.
+var NoRetry func(oblName string) bool
+
 func retryTimeouts(out []*SolveResult, timeoutS int) {
 	var idx []int
 	for i, r := range out {
 		if r != nil && r.Status == "timeout" {
+			if NoRetry != nil && r.Obl != nil && NoRetry(r.Obl.Name) {
+				continue
+			}
 			idx = append(idx, i)
 		}
 	}
